@@ -705,6 +705,9 @@ def c32(run):
 
 @check("C33")
 def c33(run):
+    ospath, _ = run.emit("os", ["emit", "os"])
+    run.mc_leg("mc_kbddisp", "MC_KbdDisp", "MC_KbdDisp3.cfg" if run.tier == "thorough" else "MC_KbdDisp2.cfg",
+               env={"OSIMG": ospath}, workers=8, timeout=3000)
     run.trace_leg("locks", ["machine", "kind=locks"],
                   verdict=["lost-byte", "lost-byte:DevDisplayWriteWhileLocked", "lost-byte:DevKbdDataReadWhileLocked", "panic"])
     return run.finish(
